@@ -113,10 +113,8 @@ func runC11(c *eng.Ctx) {
 			notFoundDoesNotHideTheRest(c, f, s, "part:"+shortInstr(p, s.Instr))
 		}
 		m := c.Fn(dfT + ".memoryFilter")
-		for _, cl := range eng.Closures(m) {
-			for i, s := range p.Sites(cl, invokeOn("memDB", "Filter")) {
-				notFoundDoesNotHideTheRest(c, cl, s, fmt.Sprintf("memory-database[%d]", i))
-			}
+		for i, s := range p.Sites(m, invokeOn("memDB", "Filter")) {
+			notFoundDoesNotHideTheRest(c, m, s, fmt.Sprintf("memory-database[%d]", i))
 		}
 		ls := p.Locks(m, nil)
 		for _, fld := range []string{"mutableMemDB", "immutableMemDB"} {
@@ -283,6 +281,16 @@ func notFoundDoesNotHideTheRest(c *eng.Ctx, f *ssa.Function, part eng.Site, labe
 			})
 		})
 	}
+	// edges taken when a not-found test answered "no, a real error"
+	var realErr []eng.Edge
+	for _, b := range eng.BlocksT(f) {
+		for _, in := range b.Instrs {
+			if cl, ok := in.(*ssa.Call); ok && isNotFoundTest(cl) {
+				_, fe := eng.BoolCheckEdges(f, cl)
+				realErr = append(realErr, fe...)
+			}
+		}
+	}
 	succ := map[ssa.Instruction]bool{}
 	for _, r := range eng.SuccessReturns(f) {
 		succ[r] = true
@@ -290,29 +298,18 @@ func notFoundDoesNotHideTheRest(c *eng.Ctx, f *ssa.Function, part eng.Site, labe
 	n := 0
 	for _, e := range errE {
 		first := e.B.Succs[e.Succ].Instrs[0]
-		for _, b := range f.Blocks {
-			for _, in := range b.Instrs {
-				r, ok := in.(*ssa.Return)
-				if !ok || succ[r] || b == f.Recover {
-					continue
-				}
-				if _, reach := eng.PathExists(eng.PathQuery{Fn: f, After: first, Target: func(x ssa.Instruction) bool { return x == in }}); !reach && first != in {
-					continue
-				}
-				// is this failing return reached from the part's error edge without passing another part?
-				n++
-				cds, _ := eng.GuardingConds(f, r)
-				g := false
-				for _, cd := range cds {
-					if isNotFoundTest(cd) {
-						g = true
-					}
-				}
-				c.Check(g, fmt.Sprintf("%s:gives-up-only-on-a-real-error[%d]", label, n), r, f,
-					"after a failing part the read is abandoned only under a test that excludes not-found (the other parts' data is kept when one part merely has nothing)",
-					"a failing return is reachable from the part's error edge without an errors.Is(err, constants.ErrNotFound) guard")
-			}
+		n++
+		isFail := func(x ssa.Instruction) bool {
+			r, ok := x.(*ssa.Return)
+			return ok && !succ[r] && x.Parent() == f && x.Block() != f.Recover
 		}
+		at, giveUp := eng.PathExists(eng.PathQuery{Fn: f, After: first, Target: isFail, Edge: eng.ForbidEdges(realErr)})
+		if isFail(first) {
+			at, giveUp = first, true
+		}
+		c.Check(!giveUp, fmt.Sprintf("%s:gives-up-only-on-a-real-error[%d]", label, n), at, f,
+			"after a failing part the read is abandoned only on the real-error outcome of a not-found test (the other parts' data is kept when one part merely has nothing)",
+			"a failing return is reachable from the part's error edge without taking the `not a not-found error` outcome of errors.Is(err, constants.ErrNotFound)")
 	}
 	_ = p
 }
